@@ -851,6 +851,52 @@ def extract_unit(spec_path, repo, out_path, meta_path=None, canary=None):
             sources[rel] = Source(os.path.join(repo, rel))
         return sources[rel]
 
+    def auto_consts(src, rel, raw, fn_open, fn_close):
+        """const / static tables referenced by a slice or closure body but declared outside it (inside
+        the enclosing function or at the top of the file) are extracted verbatim in front of it"""
+        emitted = ''.join(t for t, _ in chunks)
+        for name in sorted(set(re.findall(r'\b[A-Z][A-Z0-9_]{2,}\b', raw))):
+            if re.search(r'\b(const|static)\s+%s\b' % name, emitted) or re.search(r'\b(const|static)\s+%s\b' % name, raw):
+                continue
+            hit = None
+            for kw in ('static', 'const'):
+                for si in src.find_seq([kw, name]):
+                    if src.tok(si + 2)[1] != ':':
+                        continue
+                    inside = fn_open is not None and fn_open <= si <= fn_close
+                    if inside or src.depth[si] == 0:
+                        hit = (kw, si)
+                        break
+                if hit:
+                    break
+            if not hit:
+                continue
+            kw, si = hit
+            start = src.item_start(si)
+            k = si
+            depth = 0
+            while True:
+                t = src.tok(k)
+                if t[0] == 'punct':
+                    if t[1] in '([{':
+                        depth += 1
+                    elif t[1] in ')]}':
+                        depth -= 1
+                    elif t[1] == ';' and depth == 0:
+                        break
+                k += 1
+            a, b = src.tok(start)[2], src.tok(k)[3]
+            text = src.text[a:b]
+            nlog = len(log)
+            out = rewrite(text)
+            out = re.sub(r'^(\s*)static ', r'\1const ', out)     # R9 applied unconditionally here
+            for e in log[nlog:]:
+                e.setdefault('file', rel)
+                e.setdefault('line', src.line_of(a))
+            log.append({'rule': 'auto-const', 'before': '%s %s (referenced, declared outside the slice)' % (kw, name),
+                        'after': 'extracted verbatim', 'file': rel, 'line': src.line_of(a)})
+            chunks.append((out + '\n\n', (rel, src.line_of(a))))
+
     for item in spec['item']:
         rel = item.get('source', spec.get('source'))
         src = get_source(rel)
@@ -929,6 +975,7 @@ def extract_unit(spec_path, repo, out_path, meta_path=None, canary=None):
                 raise LostAnchor('closure_arg %s: closure parameters %r differ from %r' % (item['name'], params, item['params']))
             raw = m.group(2).strip()
             line = src.line_of(i)
+            auto_consts(src, rel, raw, fo, fc)
             nlog = len(log)
             body = rewrite(raw)
             for e in log[nlog:]:
@@ -979,6 +1026,7 @@ def extract_unit(spec_path, repo, out_path, meta_path=None, canary=None):
             b = m2.end()
             raw = text[a:b]
             line = src.line_of(a)
+            auto_consts(src, rel, raw, fo if 'within_fn' in item else None, fc if 'within_fn' in item else None)
             body = rewrite(raw)
             sig_text = item['signature'].rstrip()
             # the contract for the synthetic fn is injected the normal way
